@@ -435,6 +435,8 @@ def m_any_mutex_lock(c):
 
 
 b4_saved = dict(ex.extra_models)
+PREIMG = Seq('u8', [])
+PREIMG.lazy = 'PREIMAGE'         # identity of the image taken by snapshot_bytes in this commit
 ex.extra_models.update({
     'TransactionWorkspace::mark_committing': lambda c: _ok(UNIT, 'Result<(), ChainError>'),
     'TransactionWorkspace::operations': lambda c: Seq('Transaction', [Struct('Transaction', {}, lazy='op0')]),
@@ -442,8 +444,11 @@ ex.extra_models.update({
     'TransactionManager::remove': lambda c: UNIT, 'TensorChain::fail_workspace': note('fail_workspace', UNIT),
     'TensorChain::detect_conflicts': lambda c: _ok(UNIT, 'Result<(), ChainError>'),
     'TransactionWorkspace::to_delta_vector': lambda c: Opaque('DeltaVector'), 'TransactionWorkspace::delta_embedding': lambda c: Seq('f32', []),
-    'TensorStore::snapshot_bytes': note('snapshot', lambda c: _ok(Seq('u8', []), 'Result<Vec<u8>, SnapshotError>')),
-    'TensorStore::restore_from_bytes': note('restore', lambda c: _ok(UNIT, 'Result<(), SnapshotError>')),
+    'TensorStore::snapshot_bytes': note('snapshot', lambda c: _ok(PREIMG, 'Result<Vec<u8>, SnapshotError>')),
+    'TensorStore::restore_from_bytes': lambda c: (c.st.notes.append(('restore', tuple(n for n, lk in c.st.env.get('commit_locks', {}).items() if getattr(lk, 'held', [])),
+                                                                   getattr(deref(c.st, c.args[1]) if isinstance(c.args[1], Ptr) else c.args[1], 'lazy', None) == 'PREIMAGE')),
+                                                   _ok(UNIT, 'Result<(), SnapshotError>'))[1],
+    'TransactionWorkspace::checkpoint_bytes': lambda c: Seq('u8', []),
     'TensorChain::apply_operations_to_store': note('apply', sym_result('apply', UNIT, 'Result<(), ChainError>')),
     'compute_state_root': note('state_root', sym_result('root', lambda c: Seq('u8', [Int(z3.BitVecVal(0, 8), False)] * 32), 'Result<[u8; 32], ChainError>')),
     'state_root::compute_state_root': note('state_root', sym_result('root', lambda c: Seq('u8', [Int(z3.BitVecVal(0, 8), False)] * 32), 'Result<[u8; 32], ChainError>')),
@@ -476,18 +481,24 @@ for r in res:
         continue
     ev = [x for x in r.st.notes if x[0] in ('snapshot', 'apply', 'state_root', 'new_block', 'append', 'restore', 'lock')]
     kinds = [x[0] for x in ev]
-    if 'snapshot' not in kinds:
+    if 'apply' not in kinds and 'snapshot' not in kinds:
         continue
     committed_paths += 1
     crit = [x for x in ev if x[0] in ('snapshot', 'apply', 'state_root', 'new_block', 'append', 'restore')]
-    # one lock held at every critical step, the same one, acquired once before the snapshot
+    # one lock held at every critical step, the same one, acquired once before the first of them
     common = set(crit[0][1])
     for x in crit[1:]:
         common &= set(x[1])
-    first_snapshot = kinds.index('snapshot')
-    one_hold = bool(common) and any(kinds[:first_snapshot].count('lock') >= 1 and [e for e in ev[:first_snapshot] if e[0] == 'lock' and e[1] == n] and [e for e in ev if e[0] == 'lock' and e[1] == n].__len__() == 1 for n in common)
+    first_crit = min(i for i, k_ in enumerate(kinds) if k_ != 'lock')
+    one_hold = bool(common) and any([e for e in ev[:first_crit] if e[0] == 'lock' and e[1] == n] and len([e for e in ev if e[0] == 'lock' and e[1] == n]) == 1 for n in common)
+    # what is restored on failure is the image taken from the store inside this critical section, nothing older
+    own_image = 'snapshot' in kinds and kinds.index('snapshot') < kinds.index('apply') if 'apply' in kinds else 'snapshot' in kinds
+    own_image = own_image and all(x[2] for x in ev if x[0] == 'restore')
     is_ok = r.retval.variant == 'Ok'
     outcome = ('append' in kinds and 'restore' not in kinds) if is_ok else ('restore' in kinds)
+    if not own_image:
+        ck.require(ex, 'B4_commit_is_one_critical_section', r.pc, None, z3.BoolVal(False), lambda m: {'chain_op': 'commit_refused'}, lambda m, w: 'commit-restores-foreign-pre-image')
+        continue
     ck.require(ex, 'B4_commit_is_one_critical_section', r.pc, None, z3.BoolVal(bool(one_hold and outcome)), wit, lambda m, w: 'commit-not-atomic')
 ex.extra_models.clear()
 ex.extra_models.update(b4_saved)
@@ -553,6 +564,11 @@ if committed_paths == 0:
 for v in ck.violations:
     if v['witness'].get('chain_op') == 'replica_apply':
         rep = Replay.call({'op': 'chain_replica_apply', **v['witness']})
+        v['native'] = rep
+        v['replayed'] = rep.get('violates')
+        continue
+    if v['witness'].get('chain_op') == 'commit_refused':
+        rep = Replay.call({'op': 'chain_commit_refused'})
         v['native'] = rep
         v['replayed'] = rep.get('violates')
         continue
